@@ -60,4 +60,45 @@ def mergeList : List Flat → Except String Flat
 
 def keys (p : List (String × Nat)) : List String := p.map (·.1)
 
+/-! ### Nested allOf -/
+
+/-- A schema as an allOf operand: its own attributes and, possibly, a nested allOf list. -/
+inductive Sch where
+  | mk (flat : Flat) (allOf : List Sch)
+
+mutual
+/-- What an operand contributes: `if s.AllOf != nil { s = mergeAllOf(s.AllOf) }` — its own attributes are
+replaced by the merge of its nested members (which starts from the zero schema). -/
+def resolve : Sch → Except String Flat
+  | .mk f [] => .ok f
+  | .mk _ (m :: ms) => resolveFrom zero (m :: ms)
+/-- `mergeAllOf` / the fold of `mergeSchemas`: merge every member's contribution into the accumulator. -/
+def resolveFrom (acc : Flat) : List Sch → Except String Flat
+  | [] => .ok acc
+  | s :: rest =>
+    match resolve s with
+    | .error e => .error e
+    | .ok r => match merge2 acc r with
+      | .error e => .error e
+      | .ok a => resolveFrom a rest
+end
+
+mutual
+/-- The leaves that contribute to an operand. -/
+def leaves : Sch → List Flat
+  | .mk f [] => [f]
+  | .mk _ (m :: ms) => leavesL (m :: ms)
+def leavesL : List Sch → List Flat
+  | [] => []
+  | s :: rest => leaves s ++ leavesL rest
+end
+
+
+/-- `mergeSchemas` on operands that may carry nested allOf lists (n ≥ 2 members). -/
+def mergeTop : List Sch → Except String Flat
+  | [] => .ok zero
+  | m :: rest => match resolve m with
+    | .error e => .error e
+    | .ok a => resolveFrom a rest
+
 end OapiVerif.Merge
